@@ -11,6 +11,7 @@ import (
 	"errors"
 	"fmt"
 	"math/big"
+	"os"
 	"sort"
 
 	btcconfig "github.com/ChainSafe/sygma-relayer/chains/btc/config"
@@ -54,6 +55,12 @@ type Case struct {
 	// bexec: one delivery to the Bitcoin executor: message id (mid), resource ids (rids), per
 	// proposal (deposit nonce = its index) the index of its resource
 	BProps []int `json:"bprops,omitempty"`
+	// sessf (EVM: mid, cap, tg, props) / subf (Substrate: mid, props) / bexecf (Bitcoin: mid, rids,
+	// bprops, bexec = executed per proposal): the same delivery on a fault-free relayer and on one
+	// relayer per entry of masks whose executed-status look-ups fail at the listed positions (0-based
+	// running number of the look-up)
+	Masks [][]int `json:"masks,omitempty"`
+	BExec []bool  `json:"bexec,omitempty"`
 	// nonce
 	Block  int64  `json:"block,omitempty"`
 	TxHash string `json:"txhash,omitempty"`
@@ -82,6 +89,9 @@ type Obs struct {
 	Note    string       `json:"note,omitempty"`
 	// bexec: per schedule what every goroutine worked on
 	BRuns [][]BGroup `json:"bruns,omitempty"`
+	// sessf / subf: per relayer (0 = fault-free) the sessions it started; bexecf: the groups
+	FRuns  [][]SessObs `json:"fruns,omitempty"`
+	FBRuns [][]BGroup  `json:"fbruns,omitempty"`
 	// nonce
 	Nonce    uint64 `json:"nonce,omitempty"`
 	Preimage string `json:"preimage,omitempty"`
@@ -89,6 +99,10 @@ type Obs struct {
 }
 
 var wiring map[string]scanstack.Wiring
+
+// wiringBad: chain kinds whose start-block wiring in app.go the translator did not recognise (it has
+// reported so: the check is broken already); no pair case is generated for them.
+var wiringBad map[string]error
 
 const repetitions = 64
 
@@ -256,6 +270,12 @@ func run(c Case) Obs {
 		return runSess(c)
 	case "bexec":
 		return runBexec(c)
+	case "sessf":
+		return runSessF(c)
+	case "subf":
+		return runSubF(c)
+	case "bexecf":
+		return runBexecF(c)
 	}
 	return Obs{A: runRelayer(c, c.A), B: runRelayer(c, c.B)}
 }
@@ -406,11 +426,16 @@ func genRIDs(r *vgen.Rng, n int, shape int) []string {
 func gen(r *vgen.Rng, tier string) []Case {
 	var out []Case
 	npairs, ncredit, nnonce, nsess, nbexec := 90, 120, 40, 36, 60
+	nsessf, nsubf, nbexecf := 24, 10, 16
 	if tier == "thorough" {
 		npairs, ncredit, nnonce, nsess, nbexec = 1500, 1200, 400, 400, 1000
+		nsessf, nsubf, nbexecf = 300, 100, 200
 	}
 	for i := 0; i < npairs; i++ {
 		kind := kinds[i%3]
+		if wiringBad[kind] != nil {
+			continue
+		}
 		ival := int64(i/3%7 + 1)
 		sa, sb := int64(r.Intn(61)), int64(r.Intn(61))
 		if r.Chance(1, 6) {
@@ -422,6 +447,9 @@ func gen(r *vgen.Rng, tier string) []Case {
 	// start blocks around the first cells of the partition (below the interval, one below a boundary),
 	// as configured start or as stored cursor, against a relayer started at 0
 	for ki, kind := range []string{"evm", "substrate"} {
+		if wiringBad[kind] != nil {
+			continue
+		}
 		for ival := int64(2); ival <= 7; ival++ {
 			for si, st := range []int64{1, ival - 1, 2*ival - 1} {
 				c := genPair(r, kind, ival, st, 0)
@@ -431,6 +459,37 @@ func gen(r *vgen.Rng, tier string) []Case {
 					c.A.CStart, c.A.Stored = 0, &v
 				}
 				out = append(out, c)
+			}
+		}
+	}
+	// confirmation depths that are no multiple of the block interval (i+1, 2i-1) with start blocks that
+	// neither quantity divides and that rounding down to the confirmation depth does not happen to
+	// align: as configured start, as stored cursor, and (latest) as the first head the relayer sees -
+	// every start value app.Run may have to align - against a relayer started at 0
+	for _, kind := range []string{"evm", "substrate"} {
+		if wiringBad[kind] != nil {
+			continue
+		}
+		for ival := int64(2); ival <= 7; ival++ {
+			for _, conf := range []int64{ival + 1, 2*ival - 1} {
+				st := 3*ival + 1 + int64(r.Intn(int(ival)))
+				for st%ival == 0 || st%conf == 0 || (st-st%conf)%ival == 0 {
+					st++
+				}
+				for variant := 0; variant < 3; variant++ {
+					c := genPair(r, kind, ival, st, 0)
+					c.A.Conf, c.B.Conf = conf, conf
+					c.A.Latest, c.A.Fresh, c.A.Stored = false, false, nil
+					switch variant {
+					case 1: // read from the block store
+						v := st
+						c.A.CStart, c.A.Stored = 0, &v
+					case 2: // latest: the first head is st
+						c.A.Latest = true
+						c.A.Evs = append([]scanstack.Ev{{T: "head", H: st}}, c.A.Evs...)
+					}
+					out = append(out, c)
+				}
 			}
 		}
 	}
@@ -491,6 +550,55 @@ func gen(r *vgen.Rng, tier string) []Case {
 			c.BProps = append(c.BProps, ri)
 		}
 		r.Shuffle(len(c.BProps), func(a, b int) { c.BProps[a], c.BProps[b] = c.BProps[b], c.BProps[a] })
+		out = append(out, c)
+	}
+	// one delivery on a fault-free relayer and on relayers whose executed-status look-ups fail: at every
+	// single position, and at two positions at once
+	faultMasks := func(n int) [][]int {
+		var ms [][]int
+		for q := 0; q < n; q++ {
+			ms = append(ms, []int{q})
+		}
+		if n >= 2 {
+			a := r.Intn(n - 1)
+			ms = append(ms, []int{a, a + 1 + r.Intn(n-1-a)})
+		}
+		return ms
+	}
+	for i := 0; i < nsessf; i++ {
+		cap := vgen.Pick(r, []uint64{150, 250, 350})
+		n := r.Range(3, 7)
+		ps := make([]Prop, n)
+		for j := range ps {
+			if r.Chance(1, 5) {
+				ps[j] = Prop{HasLimit: true, Limit: uint64(r.Intn(120))}
+			}
+			ps[j].Executed = r.Chance(1, 7)
+		}
+		out = append(out, Case{Type: "sessf", Mid: vgen.Pick(r, mids), Cap: cap, Tg: 100, Props: ps, Masks: faultMasks(n)})
+	}
+	for i := 0; i < nsubf; i++ {
+		n := r.Range(1, 5)
+		ps := make([]Prop, n)
+		for j := range ps {
+			ps[j].Executed = r.Chance(1, 5)
+		}
+		out = append(out, Case{Type: "subf", Mid: vgen.Pick(r, mids), Props: ps, Masks: faultMasks(n)})
+	}
+	for i := 0; i < nbexecf; i++ {
+		nres := r.Range(2, 3)
+		c := Case{Type: "bexecf", Mid: vgen.Pick(r, mids), RIDs: genRIDs(r, nres, r.Intn(len(ridShapes)))}
+		n := r.Range(nres, 6)
+		for j := 0; j < n; j++ {
+			ri := r.Intn(nres)
+			if j < nres {
+				ri = j
+			}
+			c.BProps = append(c.BProps, ri)
+			c.BExec = append(c.BExec, r.Chance(1, 7))
+		}
+		r.Shuffle(len(c.BProps), func(a, b int) { c.BProps[a], c.BProps[b] = c.BProps[b], c.BProps[a] })
+		c.Masks = faultMasks(n)
 		out = append(out, c)
 	}
 	for i := 0; i < nnonce; i++ {
@@ -593,6 +701,8 @@ func coq(c Case, o Obs) string {
 					return vgen.Pair(vgen.ListOf(g.Members, vgen.N), r)
 				})
 			})
+	case "sessf", "subf", "bexecf":
+		return coqFaulty(c, o)
 	case "sess":
 		mem := func(m []uint64) string { return vgen.ListOf(m, vgen.N) }
 		return "Sess " + vgen.Str(c.Mid) + " " + vgen.ListOf(o.Batches, mem) + "\n    " +
@@ -609,9 +719,96 @@ func coq(c Case, o Obs) string {
 		}) + "\n    " + coqRel(c.A, o.A) + "\n    " + coqRel(c.B, o.B)
 }
 
+// isEnlargedSearch: check.py's search for a failing input after something broke = a thorough-size
+// generation without the corpus.
+func isEnlargedSearch() bool {
+	thorough, corpus := false, false
+	for i, a := range os.Args {
+		if (a == "-tier" || a == "--tier") && i+1 < len(os.Args) && os.Args[i+1] == "thorough" {
+			thorough = true
+		}
+		if a == "-corpus" || a == "--corpus" {
+			corpus = true
+		}
+	}
+	return thorough && !corpus
+}
+
+// coqFaulty prints a faulty-relayer case: the delivery, then per relayer its fault mask (one boolean
+// per proposal) and what it started.
+func coqFaulty(c Case, o Obs) string {
+	n := len(c.Props)
+	if c.Type == "bexecf" {
+		n = len(c.BProps)
+	}
+	masks := relayerMasks(c)
+	mask := func(k int) string {
+		f := failSet(masks[k])
+		bs := make([]string, n)
+		for i := range bs {
+			bs[i] = vgen.Bool(f[i])
+		}
+		return vgen.List(bs)
+	}
+	mem := func(m []uint64) string { return vgen.ListOf(m, vgen.N) }
+	sessRels := func() string {
+		rels := make([]string, len(o.FRuns))
+		for k, run := range o.FRuns {
+			rels[k] = vgen.Pair(mask(k), vgen.ListOf(run, func(x SessObs) string {
+				return vgen.Pair(mem(x.Members), vgen.ListOf(x.Sids, vgen.Str))
+			}))
+		}
+		return vgen.List(rels)
+	}
+	switch c.Type {
+	case "sessf":
+		props := make([]string, n)
+		for i, p := range c.Props {
+			l := "None"
+			if p.HasLimit {
+				l = vgen.Some(vgen.N(p.Limit))
+			}
+			props[i] = "(" + vgen.N(uint64(i)) + ", " + l + ", " + vgen.Bool(p.Executed) + ")"
+		}
+		return "SessF " + vgen.Str(c.Mid) + " " + vgen.N(c.Cap) + " " + vgen.N(c.Tg) + " " + vgen.List(props) + "\n    " + sessRels()
+	case "subf":
+		props := make([]string, n)
+		for i, p := range c.Props {
+			props[i] = vgen.Pair(vgen.N(uint64(i)), vgen.Bool(p.Executed))
+		}
+		return "SubF " + vgen.Str(c.Mid) + " " + vgen.List(props) + "\n    " + sessRels()
+	}
+	ids := creditIDs(c)
+	rid := func(id []byte) string { return vgen.NBig(new(big.Int).SetBytes(id)) }
+	props := make([]string, n)
+	for i, ri := range c.BProps {
+		props[i] = "(" + vgen.N(uint64(i)) + ", " + rid(ids[ri][:]) + ", " + vgen.Bool(i < len(c.BExec) && c.BExec[i]) + ")"
+	}
+	rels := make([]string, len(o.FBRuns))
+	for k, run := range o.FBRuns {
+		rels[k] = vgen.Pair(mask(k), vgen.ListOf(run, func(g BGroup) string {
+			r := "None"
+			if b, err := hex.DecodeString(g.RID); err == nil && len(b) == 32 {
+				r = vgen.Some(rid(b))
+			}
+			return vgen.Pair(mem(g.Members), r)
+		}))
+	}
+	return "BexecF " + vgen.List(props) + "\n    " + vgen.List(rels)
+}
+
 func main() {
 	zerolog.SetGlobalLevel(zerolog.Disabled)
-	wiring = scanstack.LoadWiring()
+	wiring, wiringBad = scanstack.LoadWiringLenient()
+	for k, err := range wiringBad {
+		fmt.Fprintf(os.Stderr, "C19 runner: no pair cases for %s: start-block wiring of app.go not recognised: %v\n", k, err)
+	}
+	if len(wiringBad) > 0 && isEnlargedSearch() {
+		// check.py looks for an input on which a broken obligation fails; the broken obligation is the
+		// wiring this harness cannot compose, and everything else was already run at quick size
+		fmt.Fprintln(os.Stderr, "C19 runner: enlarged search skipped: the unrecognised wiring cannot be exercised")
+		os.Exit(4)
+	}
 	vgen.Main(vgen.Spec[Case, Obs]{
 		Property:  "C19",
 		RunModule: "C19",
@@ -644,6 +841,12 @@ func main() {
 					}
 				}
 				return n >= 2
+			case "sessf":
+				return len(o.FRuns) > 1 && len(o.FRuns[0]) >= 2
+			case "subf":
+				return len(o.FRuns) > 1 && len(o.FRuns[0]) >= 1
+			case "bexecf":
+				return len(o.FBRuns) > 1 && len(o.FBRuns[0]) >= 2
 			case "bexec":
 				used := map[int]bool{}
 				for _, ri := range c.BProps {
@@ -653,6 +856,6 @@ func main() {
 			}
 			return true
 		},
-		Rule: "pairs of independently configured real listener stacks (EVM/Substrate/BTC; intervals 1..7; starts 0..60 and large, plus starts 1, i-1, 2i-1 for every interval i against a relayer started at 0; stored cursor absent/behind/ahead; latest/fresh flags; faults; 0..2 crashes each) over one fake chain with 0..2 deposits per block to 3 destinations; Bitcoin ProcessDeposits x64 on blocks of 1..4 transactions paying 0..3 of 2..4 resources whose 32-byte ids differ in the first byte / are left-padded small numbers / share a 31-byte prefix / differ in one inner byte / share a prefix of 1..31 bytes / are random; CalculateNonce on random (height, tx hash); the real EVM Executor.Execute (real tss.Coordinator, fake host and communication) on deliveries of 0..7 proposals forming 0..4 batches, 3 gated schedules (default and GOMAXPROCS(1)) + 2 run-ahead repetitions each; the real Bitcoin Executor.Execute on deliveries of 1..8 proposals over 1..4 resources, 4 schedules (GOMAXPROCS(1) run-ahead and default) each; distinct = distinct input JSON; non-trivial = both relayers emitted message groups / a transaction paying at least two resources / any nonce case / a delivery of at least two signed batches / a Bitcoin delivery concerning at least two resources",
+		Rule: "pairs of independently configured real listener stacks (EVM/Substrate/BTC; intervals 1..7; starts 0..60 and large, plus starts 1, i-1, 2i-1 for every interval i against a relayer started at 0; stored cursor absent/behind/ahead; latest/fresh flags; faults; 0..2 crashes each) over one fake chain with 0..2 deposits per block to 3 destinations; Bitcoin ProcessDeposits x64 on blocks of 1..4 transactions paying 0..3 of 2..4 resources whose 32-byte ids differ in the first byte / are left-padded small numbers / share a 31-byte prefix / differ in one inner byte / share a prefix of 1..31 bytes / are random; CalculateNonce on random (height, tx hash); the real EVM Executor.Execute (real tss.Coordinator, fake host and communication) on deliveries of 0..7 proposals forming 0..4 batches, 3 gated schedules (default and GOMAXPROCS(1)) + 2 run-ahead repetitions each; the real Bitcoin Executor.Execute on deliveries of 1..8 proposals over 1..4 resources, 4 schedules (GOMAXPROCS(1) run-ahead and default) each; faulty-relayer cases: one delivery (EVM 3..7 proposals in 1..4 batches, Substrate 1..5, Bitcoin 2..6 over 2..3 resources; some already executed) executed by the real Executor.Execute of a fault-free relayer and of one relayer per proposal position whose executed-status look-up fails there, plus one with two failing look-ups; distinct = distinct input JSON; non-trivial = both relayers emitted message groups / a transaction paying at least two resources / any nonce case / a delivery of at least two signed batches / a Bitcoin delivery concerning at least two resources / a faulty-relayer case whose fault-free relayer starts at least two sessions (Substrate: one)",
 	})
 }
